@@ -86,6 +86,28 @@ Proof.
 Qed.
 Print Assumptions gen_encode_dict_is_block.
 
+(* the buffer capacities that are part of the regenerated text (checked NumpyIO writes drop what does not fit) never bite: for
+   EVERY page size below 2^31 rows, on BOTH branches, the block is the complete WLevels block - in particular on the nulls branch
+   the run header varint(groups << 1 | 1) (1, 2, 3, ... bytes from 64, 8192, 2^20 ... groups) and every byte of the packed mask
+   are there and the v1 length prefix counts all of them *)
+Theorem gen_defs_capacity_suffices : forall version n mask, n < 2 ^ 31 -> N.of_nat (length mask) < 2 ^ 31 ->
+  gen_make_definitions true version n (wr_bools mask) = (if version =? 1 then wr_defs_nonull_v1 n else wr_defs_nonull_v2 n) /\
+  gen_make_definitions false version n (wr_bools mask) = (if version =? 1 then wr_defs_nulls_v1 mask else wr_defs_nulls_v2 mask) /\
+  length (gen_make_definitions false 2 n (wr_bools mask)) =
+    (length (uleb_enc (2 * (N.of_nat (length mask) / 8 + 1) + 1)) + N.to_nat (N.of_nat (length mask) / 8 + 1))%nat.
+Proof.
+  intros version n mask Hn Hm.
+  assert (n < 2 ^ 62) by (eapply N.lt_trans; [exact Hn|reflexivity]).
+  assert (N.of_nat (length mask) < 2 ^ 61) by (eapply N.lt_trans; [exact Hm|reflexivity]).
+  split; [apply gen_defs_nonull_is_block; assumption|].
+  split; [apply gen_defs_nulls_is_wlevels; assumption|].
+  rewrite gen_defs_nulls_is_wlevels by assumption. cbn [N.eqb Pos.eqb].
+  unfold wr_defs_nulls_v2. rewrite app_length.
+  pose proof (wr_bools_length mask) as G. rewrite G.
+  f_equal. rewrite <- G. rewrite Nat2N.id. reflexivity.
+Qed.
+Print Assumptions gen_defs_capacity_suffices.
+
 (* ---- 1b. encode_dict and fastparquet's own reader ---------------------------------------------------------------- *)
 (* the width byte is the item size k of what follows (the pandas codes or any whole-byte cast of them that holds them); the
    created_by-keyed shortcut of the page readers views the indices with core._index_dtype (REGENERATED: PqGen.GenDispatch.
